@@ -23,6 +23,7 @@ type misKnobs struct {
 	CustomAud    bool   `json:"custom_audience_validator"`
 	ReceivedAt   string `json:"received_at"` // "acs" | "acs-query" | "relative" (path-only request URL, as behind a real net/http server)
 	AllowIDP     bool   `json:"allow_idp_initiated"`
+	Rebase       bool   `json:"metadata_url_changes_after_first_use"` // entity ID unset: after the first delivery the application changes MetadataURL (a per-tenant clone of a template SP); the audience follows
 	MaxIssueMs   int64  `json:"MaxIssueDelay_ms"`
 	MaxClockSkew int64  `json:"MaxClockSkew_ms"`
 }
@@ -40,10 +41,11 @@ type misStep struct {
 }
 
 const (
-	misSPBase   = "https://sp.example.com"
-	misACS      = "https://sp.example.com/saml/acs"
-	misEntity   = "urn:example:sp"
-	misMetadata = "https://sp.example.com/saml/metadata"
+	misSPBase    = "https://sp.example.com"
+	misACS       = "https://sp.example.com/saml/acs"
+	misEntity    = "urn:example:sp"
+	misMetadata  = "https://sp.example.com/saml/metadata"
+	misMetadata2 = "https://sp.example.com/tenant2/saml/metadata"
 )
 
 // nearMiss returns a population of strings confusable with s.
@@ -84,7 +86,7 @@ func variant(g *Rng, correct string, ws [4]int) (string, string) {
 }
 
 func genMisroute(g *Rng, tier string) *Plan {
-	k := misKnobs{EntityIDSet: g.Bool(0.5), CustomAud: g.Bool(0.15), ReceivedAt: Pick(g, "acs", "acs", "acs-query", "relative"), AllowIDP: g.Bool(0.2),
+	k := misKnobs{EntityIDSet: g.Bool(0.5), CustomAud: g.Bool(0.15), ReceivedAt: Pick(g, "acs", "acs", "acs-query", "relative"), AllowIDP: g.Bool(0.2), Rebase: g.Bool(0.15),
 		MaxIssueMs: Pick(g, int64(7000), 90_000), MaxClockSkew: Pick(g, int64(1000), 180_000)}
 	p := &Plan{Knobs: mustJSON(k)}
 	myAud := misMetadata
@@ -94,8 +96,15 @@ func genMisroute(g *Rng, tier string) *Plan {
 	if k.CustomAud {
 		myAud = "custom-ok"
 	}
+	rebase := k.Rebase && !k.EntityIDSet && !k.CustomAud
 	n := 1 + g.PickW(6, 3, 1)
+	if rebase && n < 2 {
+		n = 2
+	}
 	for i := 0; i < n; i++ {
+		if rebase && i == 1 {
+			myAud = misMetadata2 // from the second delivery on the SP's metadata URL (hence its audience) is another one
+		}
 		st := misStep{Kind: "deliver", Entry: Pick(g, "xml", "xml", "post", "artifact"), Labels: map[string]string{}}
 		clean := g.Bool(0.12) // everything correct: the sufficient direction
 		w := func(ws ...int) [4]int {
@@ -149,6 +158,7 @@ func genMisroute(g *Rng, tier string) *Plan {
 			spec.Status, st.Labels["status"] = Pick(g, saml.StatusSuccess+" ", "urn:oasis:names:tc:SAML:2.0:status:success", saml.StatusSuccess+"x"), "near"
 		case 2:
 			spec.Status, st.Labels["status"] = Pick(g, saml.StatusRequester, saml.StatusResponder, saml.StatusAuthnFailed), "wrong"
+			spec.SubStatus = Pick(g, "", "", saml.StatusSuccess, saml.StatusAuthnFailed, saml.StatusNoPassive) // the second-level code decides nothing
 		default:
 			spec.Status, st.Labels["status"] = "", "empty"
 		}
@@ -159,7 +169,8 @@ func genMisroute(g *Rng, tier string) *Plan {
 		nc := 1 + g.PickW(4, 1)
 		for q := 0; q < nc; q++ {
 			r, l := variant(g, misACS, w(14, 3, 2, 1))
-			a.Confs = append(a.Confs, ConfSpec{NotOnOrAfter: i64(600_000), Recipient: r, InResponseTo: "id-req"})
+			a.Confs = append(a.Confs, ConfSpec{NotOnOrAfter: i64(600_000), Recipient: r, InResponseTo: "id-req",
+				Method: Pick(g, "", "", "", "urn:oasis:names:tc:SAML:2.0:cm:holder-of-key", "urn:oasis:names:tc:SAML:2.0:cm:sender-vouches")})
 			st.Labels[fmt.Sprintf("recipient%d", q)] = l
 		}
 		na := pw(6, 1, 2, 1)
@@ -245,10 +256,16 @@ func execMisroute(t *testing.T, p *Plan) *Result {
 	}
 	spv.AllowIDPInitiated = k.AllowIDP
 	begin := time.Now()
+	rebase := k.Rebase && !k.EntityIDSet && !k.CustomAud
 	for si, raw := range p.Steps {
 		st := decode[misStep](raw)
 		if st.Kind != "deliver" {
 			continue
+		}
+		if rebase && si == 1 {
+			spv.MetadataURL = mustURL(misMetadata2)
+			myAud = misMetadata2
+			res.fire("sp-metadata-url-changed")
 		}
 		t0 := time.Now()
 		respEl := BuildResponseEl(&st.Spec, t0)
